@@ -96,10 +96,29 @@ class C11(ProgramProperty):
             else:
                 v = rng.choice(pool)
             rm.append([cps(k), cps(v)])
+        if len(recs) >= 2 and rng.random() < 0.25:
+            # a *valid* hand-over chain across records: r1's name -> r2's name -> ... -> a fresh name (2-4 links), often with an
+            # unrelated pair next to it, in a random insertion order (the order of application must not depend on it)
+            m = rng.randint(2, min(4, len(recs)))
+            chain = rng.sample(recs, m)
+            names = [uncps(rng.choice([r["p"]] + r["ps"])) for r in chain]
+            rm = [[cps(a), cps(b)] for a, b in zip(names, names[1:] + ["fresh" + gen.word(rng, 1, 1, syms=["a", "b", "1"])])]
+            rest = [r for r in recs if r not in chain]
+            if rest and rng.random() < 0.6:
+                rm.append([rng.choice([rest[0]["p"]] + rest[0]["ps"]), cps(rng.choice(["e", "mm", "zzfresh", "b0"]))])
         rng.shuffle(rm)
         uris = gen.uri_probes(rng, recs, 5)
         case = self.build_case(recs, rm, uris)
         steps, tags = case["steps"], [t for t in case["tags"] if t != "plain"]
+        if len(recs) >= 2 and rng.random() < 0.25:
+            # another converter in the same process, knowing the same names but grouping them differently (the CURIE prefixes
+            # rotated over the records), is remapped with the very same mapping first
+            if rng.random() < 0.5:
+                rot = [dict(r, p=recs[(i + 1) % len(recs)]["p"], ps=recs[(i + 1) % len(recs)]["ps"]) for i, r in enumerate(recs)]
+            else:   # (only the synonyms move: every synonym keeps being known, under another canonical prefix)
+                rot = [dict(r, ps=recs[(i + 1) % len(recs)]["ps"]) for i, r in enumerate(recs)]
+            steps = [init_step(70, rot), {"op": "remap_curie", "dst": 71, "src": 70, "mapping": rm}, q(71, "records")] + steps
+            tags.append("same-mapping-on-a-regrouped-converter-first")
         ps = gen.all_prefixes(recs)
         kset = {uncps(k) for k, _ in rm}
         vset = {uncps(v) for _, v in rm}
@@ -113,7 +132,7 @@ class C11(ProgramProperty):
 
     def _remap_result(self, case, impl):
         for st, v in zip(case["steps"], impl):
-            if st["op"] == "remap_curie":
+            if st["op"] == "remap_curie" and st.get("dst") == 1:
                 return v
         return "missing"
 
